@@ -52,14 +52,16 @@ InOrder == (Ok /\ p = 1 /\ CalledLines = Evaluated /\ Len(SigCalls) = Cardinalit
 \* the view holds the freshly computed value of that signal (given the earlier overwrite)
 V == EvalO(St, R.m, Asg, R.inj.line, IF R.inj.line >= 0 THEN R.inj.vals[p] ELSE 0)
 VPlain == Eval(St, R.m, Asg)
-ViewIsFresh == (Ok => \A i \in 1..Len(SigCalls) : LET x == SigCalls[i].line IN
-                  SigCalls[i].vals[p] = (IF x = R.inj.line THEN
-                                            \* the overwritten signal itself is shown as computed from (unaffected) upstream values
-                                            VPlain[x + 1] ELSE V[x + 1])) \/ Fail("ViewIsFresh")
+\* (the two evaluations are bound by LET once per state: TLC caches a LET value, not an operator applied inside \A)
+ViewIsFresh == (Ok => LET v == V  vp == VPlain  sc == SigCalls IN
+                  \A i \in 1..Len(sc) : LET x == sc[i].line IN
+                  sc[i].vals[p] = (IF x = R.inj.line THEN
+                                      \* the overwritten signal itself is shown as computed from (unaffected) upstream values
+                                      vp[x + 1] ELSE v[x + 1])) \/ Fail("ViewIsFresh")
 \* leaving the values untouched changes nothing
 NoOpUnchanged == (Ok /\ R.inj.line < 0 => \A i \in 1..NS : HasCapture(St, i) => R.resp[i][p] = R.plain[i][p]) \/ Fail("NoOpUnchanged")
 \* ... also afterwards: propagating the same simulator again without a callback gives the untouched result
 RerunClean == (Ok => \A i \in 1..NS : HasCapture(St, i) => R.rerun[i][p] = R.plain[i][p]) \/ Fail("RerunClean")
 \* overwriting = simulating the circuit in which that signal is driven with the overwritten values
-OverrideIsRedrive == (Ok => \A i \in 1..NS : HasCapture(St, i) => R.resp[i][p] = Captured(St, V, i)) \/ Fail("OverrideIsRedrive")
+OverrideIsRedrive == (Ok => LET v == V IN \A i \in 1..NS : HasCapture(St, i) => R.resp[i][p] = Captured(St, v, i)) \/ Fail("OverrideIsRedrive")
 =============================================================================
